@@ -368,6 +368,8 @@ package gojq
 //@ spec func toIntRaw(x any, bv int) int
 //@ spec func toIntCeilRaw(x any, bv int) int
 //@ spec func toIntOf(x any) int = toIntRaw(x, (x is *big.Int) ? bigval(x.(*big.Int)) : 0)
+// the same through the immutable published value of a big integer (heap independent)
+//@ spec func toIntP(x any) int = toIntRaw(x, (x is *big.Int) ? pubval(x.(*big.Int)) : 0)
 //@ spec func toIntCeilOf(x any) int = toIntCeilRaw(x, (x is *big.Int) ? bigval(x.(*big.Int)) : 0)
 //@ spec func runeAt(s string, k int) int = rdecode(s, ridx(s, k))
 
@@ -403,6 +405,7 @@ package gojq
 //@   ensures (x is *big.Int) ==> ok && r == max(MinInt, min(MaxInt, bigval(x.(*big.Int))))
 //@   ensures ok == ((x is int) || (x is float64) || (x is *big.Int) || (x is json.Number))
 //@   defines ok ==> r == old(toIntOf(x))
+//@   defines ok ==> r == toIntP(x)
 
 //@ func toIntCeil(x any) (r int, ok bool)
 //@   property C03
@@ -986,3 +989,39 @@ package gojq
 //@   requires e.w != nil && djson(vs)
 //@   modifies out(e.w), e.buf
 //@   ensures out(e.w) == old(out(e.w)) + jsonOf(vs)
+
+// ---------------------------------------------------------------------------------------
+// C03/C13: implode. Every element is converted with toInt; a value outside [0, 0x10FFFF] becomes
+// U+FFFD (it must not be truncated to 32 bits first), the code points are written in order.
+// impl(vs, k) is the text of the first k elements.
+// ---------------------------------------------------------------------------------------
+//@ spec func cpOf(v any) int = (0 <= toIntP(v) && toIntP(v) <= 1114111) ? toIntP(v) : 65533
+//@ spec func impl(vs []any, k int) string reads HE_any
+//@ axiom impl_zero: forall vs []any :: {impl(vs, 0)} impl(vs, 0) == ""
+//@ axiom impl_step: forall vs []any; k, q int :: {impl(vs, k), impl(vs, q)} q == k + 1 && 0 <= k && k < len(vs) ==> impl(vs, q) == impl(vs, k) + runestr(cpOf(vs[k]))
+
+//@ func funcImplode(v any) (r any)
+//@   property C03 C13
+//@   using impl_zero impl_step
+//@   modifies BIG
+//@   loop 1 invariant -1 <= rangeindex && rangeindex < len(vs) && out(sb) == impl(vs, rangeindex + 1)
+//@   ensures !(v is []any) ==> (r is *func0TypeError)
+//@   ensures (r is string) ==> (v is []any) && r.(string) == impl(v.([]any), len(v.([]any)))
+
+// C13: explode|implode is the identity on well-formed strings. wellFormed(s): every decode step of s
+// yields a code point whose encoding is the bytes of that step (ASSUMED property of UTF-8 encoding and
+// decoding for strings without invalid sequences). The lemma composes the postconditions of explode
+// (xs[j] == runeAt(s, j)) and funcImplode (r == impl(xs, len(xs))).
+//@ pred wellFormed(s string) = forall k :: {ridx(s, k)} 0 <= k && k < rcount(s) ==> runestr(rdecode(s, ridx(s, k))) == s[ridx(s, k):ridx(s, k+1)]
+// consequence of toInt's verified contract (for an int argument the result is the argument and is toIntP)
+//@ axiom toIntP_int: forall x any :: {toIntP(x)} (x is int) ==> toIntP(x) == x.(int)
+//@ lemma implode_explode(s string, xs []any, k int)
+//@   property C13
+//@   using impl_zero impl_step toIntP_int
+//@   requires wellFormed(s) && len(xs) == rcount(s)
+//@   requires forall j :: {xs[j]} 0 <= j && j < len(xs) ==> xs[j] == runeAt(s, j)
+//@   requires 0 <= k && k <= rcount(s)
+//@   use impl_step(xs, k - 1, k)
+//@   ensures impl(xs, k) == s[:ridx(s, k)]
+//@   induct k
+//@   decreases k
